@@ -972,7 +972,7 @@ class Executor:
         lo_t = None if isinstance(lo, SNone) else lo.t
         hi_t = None if isinstance(hi, SNone) else hi.t
         if isinstance(v, SStr):
-            return [self.res(st, strops.slice_str(v, lo_t, hi_t))]
+            return [self.res(st, strops.slice_str(v, lo_t, hi_t, st))]
         items = self.concrete_items(st, v)
         if items is not None:
             cl = const_int(lo_t) if lo_t is not None else None
